@@ -126,19 +126,62 @@ Proof.
   apply N.eqb_eq in E as ->. now intros [= <-].
 Qed.
 
+(* does the text start with a closing parenthesis (or an at sign)? *)
+Definition flag (x : str) : bool := match x with c :: _ => (c =? RP)%N || (c =? AT)%N | [] => false end.
+
+Lemma space_not_flag c : is_space c = true -> ((c =? RP)%N || (c =? AT)%N) = false.
+Proof.
+  intros H. destruct (c =? RP)%N eqn:E1; [apply N.eqb_eq in E1; subst; discriminate|].
+  destruct (c =? AT)%N eqn:E2; [apply N.eqb_eq in E2; subst; discriminate|]. reflexivity.
+Qed.
+Lemma flag_ws_rp w x : is_ws w -> flag (w ++ RP :: x) = is_nil w.
+Proof.
+  destruct w as [|c w]; [reflexivity|]. unfold is_ws. cbn [forallb app flag is_nil]. intros H.
+  apply andb_prop in H as [H _]. now apply space_not_flag.
+Qed.
+Lemma flag_ws_nil w : is_ws w -> flag (w ++ []) = false.
+Proof.
+  destruct w as [|c w]; [reflexivity|]. unfold is_ws. cbn [forallb app flag]. intros H.
+  apply andb_prop in H as [H _]. now apply space_not_flag.
+Qed.
+Lemma flag_ws_kw w k x : is_ws w -> flag (w ++ kw_str k ++ x) = false.
+Proof.
+  destruct w as [|c w].
+  - intros _. destruct k; reflexivity.
+  - unfold is_ws. cbn [forallb app flag]. intros H. apply andb_prop in H as [H _]. now apply space_not_flag.
+Qed.
+
+Lemma find_kw_none_each ks s k : find_kw ks s = None -> In k ks ->
+  match starts (kw_str k) s with Some r => boundary_after r = false | None => True end.
+Proof.
+  induction ks as [|k0 ks IH]; cbn [find_kw In]; [tauto|].
+  destruct (starts (kw_str k0) s) as [r0|] eqn:E.
+  - destruct (boundary_after r0) eqn:Eb; [discriminate|]. intros H [->|Hin]; [now rewrite E|now apply IH].
+  - intros H [->|Hin]; [now rewrite E|now apply IH].
+Qed.
+
+Lemma kw_text_cases p : is_kw_text p = true -> exists k, p = kw_str k.
+Proof.
+  unfold is_kw_text. intros H. apply orb_prop in H as [H|H]; [apply orb_prop in H as [H|H]|];
+    apply str_eqb_true in H; eauto.
+Qed.
+
 Section Sound.
   Variable V : variants.
   Variable compile : atom -> cres.
-  Hypothesis Hstrict : bare_keyword_atom V = false.
+  Let b := bare_keyword_atom V.
 
-  Lemma compile_qualified_cok a b : compile_qualified V compile a = Ok b -> compile a = COk.
+  Lemma compile_qualified_cok a a' : compile_qualified V compile a = Ok a' -> compile a = COk.
   Proof. unfold compile_qualified. destruct (compile a); try discriminate; [reflexivity|].
     destruct (overflow_escapes V); discriminate. Qed.
-  Lemma compile_unqualified_cok a b : compile_unqualified compile a = Ok b -> compile a = COk.
+  Lemma compile_unqualified_cok a a' : compile_unqualified compile a = Ok a' -> compile a = COk.
   Proof. unfold compile_unqualified. destruct (compile a); try discriminate; reflexivity. Qed.
 
   Lemma simple_sound s a l r : simple V compile s = Ok (a, l, r) ->
-    exists st, atom_ok a st /\ s = print_atom a st ++ r /\ (forall d, last_of d (print_atom a st) = Some l) /\
+    exists st, (atom_okx true a st /\
+                (st_short st = true -> st_pat st = Unq -> is_kw_text (a_pat a) = true -> b = true) /\
+                (st_pat st = Unq -> stop_res r)) /\
+               s = print_atom a st ++ r /\ (forall d, last_of d (print_atom a st) = Some l) /\
                compile a = COk.
   Proof.
     unfold simple. destruct (first_prefix prefixes s) as [[[[isdata ty] opts] r0]|] eqn:Ep.
@@ -161,11 +204,12 @@ Section Sound.
       + apply bind_ok in H as ([k r3] & Hk & H). apply lex_key_sound in Hk as (kq & Hkne & Hkv & Er2).
         apply bind_ok in H as (r4 & H4 & H). apply expect_sound in H4.
         apply bind_ok in H as ([[p l'] r5] & H5 & H).
-        apply lex_pattern_sound in H5 as (pq & Hpv & Er4 & Hlast & _).
+        apply lex_pattern_sound in H5 as (pq & Hpv & Er4 & Hlast & Hunq & _).
         apply bind_ok in H as (a' & Hc & [= <- <- <-]).
         pose proof (compile_qualified_cok _ _ Hc) as Hcok. apply compile_qualified_ok in Hc. subst a'.
         exists {| st_short := false; st_slash := (opts && cs)%bool; st_key := kq; st_pat := pq |}.
-        split; [unfold atom_ok; cbn; auto|]. split; [|split; [|exact Hcok]].
+        split; [split; [unfold atom_okx; cbn; auto|split; [discriminate|intros Hq; now apply Hunq]]|].
+        split; [|split; [|exact Hcok]].
         * subst s r2 r3 r4. unfold sep in Ho.
           destruct Ho as [(-> & -> & ->)|[(-> & -> & ->)|(-> & -> & ->)]]; destruct ty;
             unfold print_atom, opt_str, prefix_text; cbn -[print_value]; rewrite <- ?app_assoc; cbn [app];
@@ -173,11 +217,12 @@ Section Sound.
         * intros d. unfold print_atom. cbn [st_short a_key st_pat a_pat st_key].
           rewrite !last_of_app. rewrite last_of_cons, last_of_app, last_of_cons. apply Hlast.
       + apply bind_ok in H as ([[p l'] r5] & H5 & H).
-        apply lex_pattern_sound in H5 as (pq & Hpv & Er2 & Hlast & _).
+        apply lex_pattern_sound in H5 as (pq & Hpv & Er2 & Hlast & Hunq & _).
         apply bind_ok in H as (a' & Hc & [= <- <- <-]).
         pose proof (compile_qualified_cok _ _ Hc) as Hcok. apply compile_qualified_ok in Hc. subst a'.
         exists {| st_short := false; st_slash := (opts && cs)%bool; st_key := Unq; st_pat := pq |}.
-        split; [unfold atom_ok; cbn; auto|]. split; [|split; [|exact Hcok]].
+        split; [split; [unfold atom_okx; cbn; auto|split; [discriminate|intros Hq; now apply Hunq]]|].
+        split; [|split; [|exact Hcok]].
         * subst s r2. unfold sep in Ho.
           destruct Ho as [(-> & -> & ->)|[(-> & -> & ->)|(-> & -> & ->)]]; destruct ty;
             unfold print_atom, opt_str, prefix_text; cbn -[print_value]; rewrite <- ?app_assoc; cbn [app];
@@ -187,14 +232,36 @@ Section Sound.
     - destruct s as [|c s']; [discriminate|]. destruct (c =? AT)%N; [discriminate|].
       intros H. apply bind_ok in H as ([[p l'] r5] & H5 & H).
       apply lex_pattern_sound in H5 as (pq & Hpv & Es & Hlast & Hunq & _).
-      rewrite Hstrict in H. cbn [negb andb] in H.
-      destruct (negb (is_quote c) && is_kw_text p) eqn:Ek; [discriminate|].
+      fold b in H.
+      destruct (negb b && negb (is_quote c) && is_kw_text p) eqn:Ek; [discriminate|].
       apply bind_ok in H as (a' & Hc & [= <- <- <-]).
       pose proof (compile_unqualified_cok _ _ Hc) as Hcok. apply compile_unqualified_ok in Hc. subst a'.
       exists {| st_short := true; st_slash := false; st_key := Unq; st_pat := pq |}.
       split; [|split; [exact Es|split; [exact Hlast|exact Hcok]]].
-      unfold atom_ok. cbn. split; [exact Hpv|]. repeat split.
-      intros Hq. destruct (Hunq Hq) as (_ & c' & r' & [= <- <-] & Hnq). rewrite Hnq in Ek. exact Ek.
+      split; [|split].
+      + unfold atom_okx. cbn. split; [exact Hpv|]. repeat split. discriminate.
+      + cbn. intros _ Hq Hkw. destruct (Hunq Hq) as (_ & c' & r' & [= <- <-] & Hnq).
+        rewrite Hnq, Hkw in Ek. cbn in Ek. rewrite !andb_true_r in Ek. now apply negb_false_iff in Ek.
+      + cbn. intros Hq. now apply Hunq.
+  Qed.
+
+  Lemma atom_upgrade a st r : atom_okx true a st ->
+    (st_short st = true -> st_pat st = Unq -> is_kw_text (a_pat a) = true -> b = true) ->
+    (st_pat st = Unq -> stop_res r) ->
+    find_kw all_kws (print_atom a st ++ r) = None ->
+    atom_okx (b && flag r) a st.
+  Proof.
+    intros [Hv Hk] Hb Hs Hf. split; [exact Hv|]. destruct (st_short st) eqn:Esh; [|exact Hk].
+    destruct Hk as (H1 & H2 & H3 & _). repeat split; auto.
+    intros Hq Hal. destruct (is_kw_text (a_pat a)) eqn:Ekw; [exfalso|reflexivity].
+    rewrite (Hb eq_refl Hq eq_refl) in Hal. cbn in Hal.
+    destruct (kw_text_cases _ Ekw) as (k & Ep).
+    unfold print_atom in Hf. rewrite Esh, Hq in Hf. cbn [print_value] in Hf. rewrite Ep in Hf.
+    assert (Hin : In k all_kws) by (destruct k; cbn; auto).
+    pose proof (find_kw_none_each _ _ k Hf Hin) as Hx. rewrite starts_app in Hx.
+    specialize (Hs Hq). destruct r as [|c r']; [discriminate|]. cbn in Hs, Hx, Hal.
+    unfold reserved in Hs. apply orb_false_elim in Hx as [Hlp Hsp]. rewrite Hsp, Hlp in Hs. cbn in Hs.
+    rewrite orb_false_r in Hs. rewrite orb_comm in Hal. congruence.
   Qed.
 
   (* ---------- trees ---------- *)
@@ -217,7 +284,7 @@ Section Sound.
     - exists DQ. split; [intros d; apply (last_of_snoc d (DQ :: escape DQ v))|reflexivity].
   Qed.
 
-  Lemma atom_last a st : atom_ok a st ->
+  Lemma atom_last al a st : atom_okx al a st ->
     exists l, (forall d, last_of d (print_atom a st) = Some l) /\ prev_ok (Some l) = false.
   Proof.
     intros [Hv Hk]. destruct (value_last (st_pat st) (a_pat a) Hv) as (l & Hl & Hp).
@@ -228,42 +295,42 @@ Section Sound.
     - rewrite !last_of_app. rewrite last_of_cons. apply Hl.
   Qed.
 
-  Lemma last_char_paren t : forall lvl d, ok lvl t -> prev_ok (last_of d (print t)) = true -> ends_paren t = true.
+  Lemma last_char_paren t : forall rp lvl d, okx b rp lvl t -> prev_ok (last_of d (print t)) = true -> ends_paren t = true.
   Proof.
-    induction t as [a st|w c IH|k l IHl w1 w2 r IHr|w1 c IH w2]; intros lvl d; cbn [ok print ends_paren].
-    - intros Hok Hp. destruct (atom_last a st Hok) as (x & Hx & Hf). rewrite Hx in Hp. congruence.
-    - intros (_ & Hok & _). rewrite !last_of_app. now apply (IH 2%nat).
-    - intros (_ & _ & _ & _ & _ & Hr & _). rewrite !last_of_app. now apply (IHr (S (lev k))).
+    induction t as [a st|w c IH|k l IHl w1 w2 r IHr|w1 c IH w2]; intros rp lvl d; cbn [okx print ends_paren].
+    - intros Hok Hp. destruct (atom_last _ a st Hok) as (x & Hx & Hf). rewrite Hx in Hp. congruence.
+    - intros (_ & Hok & _). rewrite !last_of_app. now apply (IH rp 2%nat).
+    - intros (_ & _ & _ & _ & _ & Hr & _). rewrite !last_of_app. now apply (IHr rp (S (lev k))).
     - reflexivity.
   Qed.
 
-  Lemma head_paren t : forall lvl tl, ok lvl t -> print t = LP :: tl -> starts_paren t = true.
+  Lemma head_paren t : forall rp lvl tl, okx b rp lvl t -> print t = LP :: tl -> starts_paren t = true.
   Proof.
-    induction t as [a st|w c IH|k l IHl w1 w2 r IHr|w1 c IH w2]; intros lvl tl; cbn [ok print starts_paren].
-    - intros Hok E. destruct (atom_head a st Hok) as (ch & t' & E' & _ & Hlp). rewrite E' in E.
+    induction t as [a st|w c IH|k l IHl w1 w2 r IHr|w1 c IH w2]; intros rp lvl tl; cbn [okx print starts_paren].
+    - intros Hok E. destruct (atom_head _ a st Hok) as (ch & t' & E' & _ & Hlp). rewrite E' in E.
       injection E as -> _. discriminate.
     - intros _ E. discriminate.
-    - intros (_ & _ & _ & _ & Hl & _) E. destruct (print_head _ l Hl) as (ch & t' & E' & _).
-      rewrite E' in E. cbn [app] in E. injection E as -> _. now apply (IHl (lev k) t').
+    - intros (_ & _ & _ & _ & Hl & _) E. destruct (print_head l _ _ _ Hl) as (ch & t' & E' & _).
+      rewrite E' in E. cbn [app] in E. injection E as -> _. now apply (IHl false (lev k) t').
     - reflexivity.
   Qed.
 
-  Lemma boundary_paren lvl t rest : ok lvl t -> boundary_after (print t ++ rest) = true -> starts_paren t = true.
+  Lemma boundary_paren rp lvl t rest : okx b rp lvl t -> boundary_after (print t ++ rest) = true -> starts_paren t = true.
   Proof.
-    intros Hok Hb. destruct (print_head lvl t Hok) as (ch & t' & E & Hs). rewrite E in Hb. cbn [app boundary_after] in Hb.
-    rewrite Hs, orb_false_r in Hb. apply N.eqb_eq in Hb as ->. now apply (head_paren t lvl t').
+    intros Hok Hb. destruct (print_head t _ _ _ Hok) as (ch & t' & E & Hs). rewrite E in Hb. cbn [app boundary_after] in Hb.
+    rewrite Hs, orb_false_r in Hb. apply N.eqb_eq in Hb as ->. now apply (head_paren t rp lvl t').
   Qed.
 
-  Lemma ok_weaken t : forall lvl lvl', (lvl' <= lvl)%nat -> ok lvl t -> ok lvl' t.
+  Lemma ok_weaken t : forall rp lvl lvl', (lvl' <= lvl)%nat -> okx b rp lvl t -> okx b rp lvl' t.
   Proof.
-    destruct t; intros lvl lvl' Hle; cbn [ok]; auto.
+    destruct t; intros rp lvl lvl' Hle; cbn [okx]; auto.
     intros (H1 & H2 & H3). split; [exact H1|]. split; [lia|exact H3].
   Qed.
 
   (* what a sub-parser of a level returns, read backwards *)
   Definition sub_sound (sub : parser) (lvl : nat) : Prop :=
     forall prev s e pv r, nonspace_head s -> sub prev s = Ok (e, pv, r) ->
-    exists t w, ok lvl t /\ is_ws w /\ s = print t ++ w ++ r /\ erase t = e /\
+    exists t w, okx b (flag (w ++ r)) lvl t /\ is_ws w /\ s = print t ++ w ++ r /\ erase t = e /\
                 pv = last_of (last_of prev (print t)) w /\ compiled compile t.
 
   Section LoopSound.
@@ -282,9 +349,9 @@ Section Sound.
     Qed.
 
     Lemma loop_sound g : forall tl wl prev0 s e pv r,
-      ok (lev k) tl -> compiled compile tl -> is_ws wl -> nonspace_head s ->
+      okx b (flag (wl ++ s)) (lev k) tl -> compiled compile tl -> is_ws wl -> nonspace_head s ->
       loop k sub (mk_of k) g (erase tl) (last_of (last_of prev0 (print tl)) wl) s = Ok (e, pv, r) ->
-      exists t w, ok (lev k) t /\ is_ws w /\ print tl ++ wl ++ s = print t ++ w ++ r /\ erase t = e /\
+      exists t w, okx b (flag (w ++ r)) (lev k) t /\ is_ws w /\ print tl ++ wl ++ s = print t ++ w ++ r /\ erase t = e /\
                   pv = last_of (last_of prev0 (print t)) w /\ compiled compile t.
     Proof.
       induction g as [|g IH]; intros tl wl prev0 s e pv r Hok Hcomp Hwl Hns; cbn [loop]; [discriminate|].
@@ -300,13 +367,14 @@ Section Sound.
       destruct (skip_ws pv2 r2) as [pv3 r3] eqn:E3.
       apply skip_ws_split in E3 as (w3 & Hw3 & Er2 & Epv3 & Hns3).
       set (tl' := CBin k tl wl w2 t2).
-      assert (Hok' : ok (lev k) tl').
-      { cbn [ok]. split; [exact Hk|]. split; [lia|]. split; [exact Hwl|]. split; [exact Hw2|].
-        split; [exact Hok|]. split; [exact Hok2|]. split.
+      rewrite Es, (flag_ws_kw wl k r0 Hwl) in Hok.
+      assert (Hok' : okx b (flag ((wa ++ w3) ++ r3)) (lev k) tl').
+      { cbn [okx]. split; [exact Hk|]. split; [lia|]. split; [exact Hwl|]. split; [exact Hw2|].
+        split; [exact Hok|]. split; [rewrite <- app_assoc, <- Er2; exact Hok2|]. split.
         - destruct wl as [|c0 wl']; [|left; discriminate]. right. cbn [last_of rev] in Hpo.
-          now apply (last_char_paren tl (lev k) prev0).
+          now apply (last_char_paren tl false (lev k) prev0).
         - destruct w2 as [|c0 w2']; [|left; discriminate]. right. cbn [app] in Er0. subst r0 r1.
-          now apply (boundary_paren (S (lev k)) t2 (wa ++ r2)). }
+          apply (boundary_paren (flag (wa ++ r2)) (S (lev k)) t2 (wa ++ r2)); [exact Hok2|exact Hb]. }
       assert (Hc' : compiled compile tl').
       { intros a Ha. cbn [catoms] in Ha. apply in_app_or in Ha as [Ha|Ha]; auto. }
       assert (Hm : mk_of k (erase tl) e2 = erase tl') by (unfold tl'; cbn [erase]; now rewrite Ee2).
@@ -321,7 +389,7 @@ Section Sound.
     Qed.
 
     Lemma compound_sound g prev s e pv r : compound k sub (mk_of k) g prev s = Ok (e, pv, r) ->
-      exists t w0 w, ok (lev k) t /\ is_ws w0 /\ is_ws w /\ s = w0 ++ print t ++ w ++ r /\ erase t = e /\
+      exists t w0 w, okx b (flag (w ++ r)) (lev k) t /\ is_ws w0 /\ is_ws w /\ s = w0 ++ print t ++ w ++ r /\ erase t = e /\
                      pv = last_of (last_of (last_of prev w0) (print t)) w /\ compiled compile t.
     Proof.
       unfold compound. destruct (skip_ws prev s) as [pv0 r0] eqn:E0.
@@ -330,7 +398,8 @@ Section Sound.
       destruct (Hsub pv0 r0 e1 pv1 r1 Hns0 H1) as (t1 & wa & Hok1 & Hwa & Er0 & Ee1 & Epv1 & Hc1).
       destruct (skip_ws pv1 r1) as [pv2 r2] eqn:E2.
       apply skip_ws_split in E2 as (w2 & Hw2 & Er1 & Epv2 & Hns2).
-      assert (Hok1' : ok (lev k) t1) by (apply (ok_weaken t1 (S (lev k))); [lia|exact Hok1]).
+      assert (Hok1' : okx b (flag ((wa ++ w2) ++ r2)) (lev k) t1).
+      { rewrite <- app_assoc, <- Er1. apply (ok_weaken t1 _ (S (lev k))); [lia|exact Hok1]. }
       rewrite <- Ee1 in H.
       assert (Hpv : pv2 = last_of (last_of pv0 (print t1)) (wa ++ w2)).
       { subst pv2 pv1. now rewrite !last_of_app. }
@@ -360,24 +429,28 @@ Section Sound.
     assert (Hand : sub_sound (and_level V compile f) 1).
     { apply (compound_sub_sound KAnd); [discriminate|exact IH]. }
     assert (Hsimple : ('(a, l, r') <- simple V compile s ;; Ok (Atom a, Some l, r')) = Ok (e, pv, r) ->
-      exists t w, ok 2 t /\ is_ws w /\ s = print t ++ w ++ r /\ erase t = e /\
+      find_kw all_kws s = None ->
+      exists t w, okx b (flag (w ++ r)) 2 t /\ is_ws w /\ s = print t ++ w ++ r /\ erase t = e /\
                   pv = last_of (last_of prev (print t)) w /\ compiled compile t).
-    { intros H. apply bind_ok in H as ([[a l] r'] & Hs & [= <- <- <-]).
-      destruct (simple_sound s a l r' Hs) as (st & Hok & Es & Hlast & Hc).
-      exists (CAtom a st), []. split; [exact Hok|]. split; [reflexivity|]. split; [cbn [print app]; exact Es|].
+    { intros H Hfk. apply bind_ok in H as ([[a l] r'] & Hs & [= <- <- <-]).
+      destruct (simple_sound s a l r' Hs) as (st & (Hok & Hb2 & Hst) & Es & Hlast & Hc).
+      exists (CAtom a st), []. split; [cbn [okx app]; rewrite Es in Hfk; now apply atom_upgrade|]. split; [reflexivity|]. split; [cbn [print app]; exact Es|].
       split; [reflexivity|]. split; [|intros x [<-|[]]; exact Hc].
       cbn [print]. change (Some l = last_of prev (print_atom a st)). now rewrite Hlast. }
-    destruct s as [|c s']; [exact Hsimple|].
+    destruct s as [|c s']; [intros H; now apply Hsimple|].
     destruct (c =? LP)%N eqn:Ec.
     - apply N.eqb_eq in Ec as ->. intros H. apply bind_ok in H as ([[e' pv'] r'] & Ho & H).
       destruct r' as [|d r'']; [discriminate|]. destruct (d =? RP)%N eqn:Ed; [|discriminate].
       apply N.eqb_eq in Ed as ->. injection H as <- <- <-.
       destruct (compound_sound KOr (and_level V compile f) ltac:(discriminate) Hand f (Some LP) s' e' pv' (RP :: r'') Ho)
         as (t & w0 & w & Hok & Hw0 & Hw & Es & Ee & _ & Hc).
-      exists (CParen w0 t w), []. cbn [ok print erase app]. repeat split; auto.
+      rewrite (flag_ws_rp w r'' Hw) in Hok.
+      exists (CParen w0 t w), []. cbn [okx print erase app]. repeat split; auto.
       + rewrite Es. cbn [app]. now rewrite <- !app_assoc.
       + cbn [last_of rev]. symmetry. apply (ends_paren_last (CParen w0 t w)). reflexivity.
-    - destruct (peek_kw all_kws prev (c :: s')) as [| |k' r0] eqn:Ep; [discriminate|exact Hsimple|].
+    - destruct (peek_kw all_kws prev (c :: s')) as [| |k' r0] eqn:Ep; [discriminate| |].
+      { intros H. apply Hsimple; [exact H|]. unfold peek_kw in Ep.
+        destruct (find_kw all_kws (c :: s')) as [[k2 r2]|]; [|reflexivity]. destruct (prev_ok prev); discriminate. }
       destruct k'; try discriminate.
       unfold peek_kw in Ep. destruct (find_kw all_kws (c :: s')) as [[k2 r2]|] eqn:Ef; [|discriminate].
       destruct (prev_ok prev) eqn:Epo; [|discriminate]. injection Ep as -> ->.
@@ -386,15 +459,15 @@ Section Sound.
       apply skip_ws_split in E1 as (w & Hw & Er0 & Epv1 & Hns1).
       intros H. apply bind_ok in H as ([[e' pv'] r'] & Hu & [= <- <- <-]).
       destruct (IH pv1 r1 e' pv' r' Hns1 Hu) as (t & wa & Hok & Hwa & Er1 & Ee & Epv & Hc).
-      exists (CNot w t), wa. cbn [ok print erase]. split; [|split; [exact Hwa|split; [|split; [now rewrite Ee|split; [|exact Hc]]]]].
+      exists (CNot w t), wa. cbn [okx print erase]. split; [|split; [exact Hwa|split; [|split; [now rewrite Ee|split; [|exact Hc]]]]].
       + split; [exact Hw|]. split; [exact Hok|]. destruct w as [|c0 w']; [|left; discriminate]. right.
-        cbn [app] in Er0. subst r0 r1. now apply (boundary_paren 2 t (wa ++ r')).
+        cbn [app] in Er0. subst r0 r1. apply (boundary_paren (flag (wa ++ r')) 2 t (wa ++ r')); [exact Hok|exact Hb].
       + rewrite Es, Er0, Er1. now rewrite <- !app_assoc.
       + rewrite Epv, Epv1. now rewrite !last_of_app.
   Qed.
 
-  Theorem parse_sound s e : parse V compile s = Ok e ->
-    exists t w0 w3, ok 0 t /\ is_ws w0 /\ is_ws w3 /\ s = w0 ++ print t ++ w3 /\ erase t = e /\ compiled compile t.
+  Theorem parse_sound_x s e : parse V compile s = Ok e ->
+    exists t w0 w3, okx b false 0 t /\ is_ws w0 /\ is_ws w3 /\ s = w0 ++ print t ++ w3 /\ erase t = e /\ compiled compile t.
   Proof.
     unfold parse. intros H. apply bind_ok in H as ([[e' pv] r] & Ho & H).
     destruct r as [|c r]; [|discriminate]. injection H as <-.
@@ -402,6 +475,10 @@ Section Sound.
     { apply (compound_sub_sound KAnd); [discriminate|apply unary_sound]. }
     destruct (compound_sound KOr _ ltac:(discriminate) Hand _ None s e' pv [] Ho)
       as (t & w0 & w & Hok & Hw0 & Hw & Es & Ee & _ & Hc).
-    exists t, w0, w. rewrite app_nil_r in Es. auto 10.
+    rewrite (flag_ws_nil w Hw) in Hok. exists t, w0, w. rewrite app_nil_r in Es. auto 10.
   Qed.
 End Sound.
+
+Theorem parse_sound V compile : bare_keyword_atom V = false -> forall s e, parse V compile s = Ok e ->
+  exists t w0 w3, ok 0 t /\ is_ws w0 /\ is_ws w3 /\ s = w0 ++ print t ++ w3 /\ erase t = e /\ compiled compile t.
+Proof. intros Hb s e H. pose proof (parse_sound_x V compile s e H) as Hx. now rewrite Hb in Hx. Qed.
